@@ -542,16 +542,16 @@ PLANS = {
         CORE_LABELS + ['AddRoot', 'ReplaceRoot', 'TestPassAbsent', 'TestFailAbsent', 'AddBadIndex', 'AddNoParent',
                        'RemoveAbsentMember', 'MoveFromRoot']),
     'C05': P(
-        [AP('d1', S_ALL, [1], V_ALL, [1, 2, 9], 1),
+        [AP('d1', S_ALL, [1, 5], V_ALL, [1, 2, 9], 1),
          AP('d2', [5, 10], [1], [1, 2, 6, 8, 9], [1, 2, 9], 2),
          A_merge('mo', 'merge', 2, 2, 1)],
-        [AP('d1', S_ALL, [1, 2, 8], V_ALL, [1, 2, 9], 1),
+        [AP('d1', S_ALL, [1, 2, 5, 8], V_ALL, [1, 2, 9], 1),
          A_merge('mo', 'merge', 3, 2, 1, timeout=9000), A_merge('mo2', 'merge', 1, 2, 2, timeout=9000),
          AP('d2', [1, 3, 4, 5, 6, 10, 11], [1], V_ALL, [1, 2, 6, 8, 9], 2, timeout=9000),
          AP('d3', [8, 9], [1], [1, 2, 6], [1, 6], 3, kinds=['add', 'remove', 'replace', 'move', 'copy'], timeout=9000)],
         'the ORDERED, literal-exact form of the output (member order and number literals significant) is compared with the '
         'specification state; the empty patch is replayed for every seed',
-        CORE_LABELS + ['EmptyPatch', 'AddRoot']),
+        CORE_LABELS + ['EmptyPatch', 'AddRoot', 'AddEnsure', 'SurvivorOrder_dc']),
     'C08': P(
         [AP('d1', S_ALL, O_ALL, [1, 2, 6, 8, 9, 11], [1, 2, 9], 1),
          AP('d2', [5, 6], [1, 5, 9], [1, 2, 6], [1, 9], 2)],
